@@ -6,6 +6,8 @@ import (
 	"github.com/deadsy/sdfx/sdf"
 	v2 "github.com/deadsy/sdfx/vec/v2"
 	v3 "github.com/deadsy/sdfx/vec/v3"
+	"github.com/deadsy/sdfx/vec/v2i"
+	"github.com/deadsy/sdfx/vec/v3i"
 )
 
 // VerifMcToTriangles exposes the per-cell marching cubes step to the verification harness.
@@ -16,4 +18,22 @@ func VerifMcToTriangles(p [8]v3.Vec, v [8]float64, x float64) []*sdf.Triangle3 {
 // VerifMsToLines exposes the per-cell marching squares step to the verification harness.
 func VerifMsToLines(p [4]v2.Vec, v [4]float64, x float64) []*sdf.Line2 {
 	return msToLines(p, v, x)
+}
+
+// VerifDcache3 builds the octree renderer's distance cache and returns its evaluate function.
+func VerifDcache3(s sdf.SDF3, origin v3.Vec, resolution float64, levels uint) func(x, y, z int) float64 {
+	dc := newDcache3(s, origin, resolution, levels)
+	return func(x, y, z int) float64 {
+		_, d := dc.evaluate(v3i.Vec{X: x, Y: y, Z: z})
+		return d
+	}
+}
+
+// VerifDcache2 builds the quadtree renderer's distance cache and returns its evaluate function.
+func VerifDcache2(s sdf.SDF2, origin v2.Vec, resolution float64, levels uint) func(x, y int) float64 {
+	dc := newDcache2(s, origin, resolution, levels)
+	return func(x, y int) float64 {
+		_, d := dc.evaluate(v2i.Vec{X: x, Y: y})
+		return d
+	}
 }
